@@ -229,7 +229,7 @@ def r20_5(ctx):
     # UIDL values = snapshot_uids
     ul = p.func("pop3_client.POP3CommandHandler.do_uidl")
     pul = pm_of(p, ul)
-    if pul.has("uid = self.snapshot_uids[n - 1]") and pul.has("await self.client.push(f'+OK {n} {uid}\\r\\n')") and pul.has("for num in range(1, self.msg_count + 1):\n    if num not in self.deleted:\n        uid = self.snapshot_uids[num - 1]\n        lines.append(f'{num} {uid}\\r\\n')"):
+    if pul.has("for num in range(1, self.msg_count + 1):\n    if num not in self.deleted:\n        uid = self.snapshot_uids[num - 1]\n        lines.append(f'{num} {uid}\\r\\n')") and pul.has("uid = self.snapshot_uids[n - 1]") and pul.has("await self.client.push(f'+OK {n} {uid}\\r\\n')"):
         ctx.ok("R20.5", where(ul), "UIDL values are the snapshot's IMAP UIDs")
     else:
         ctx.bad("R20.5", ul.module, ul.qual, "uid = self.snapshot_uids[n - 1]", "UIDL no longer reports the snapshot's IMAP UIDs", ul.node.lineno)
